@@ -360,6 +360,11 @@ theorem cInvN_stepN (env : Env) (v : Variant) (cfg : Cfg) (s : State) (t : Tid) 
     have o := execW1_out env t f r s.sh c
     generalize execW1 env t f r s.sh c = p at o
     cases o with
+    | dead _ =>
+      exact cInvN_after_write v cfg s t B I c _ hc hw (holds_ne_nil (holds_toRelease _ hhr))
+        (cdisc_suffix (toRelease_suffix r) (cdisc_tail cd)) (adisc_suffix (toRelease_suffix r) (adisc_tail ad))
+        (atBoth_toRelease r) (atClear_toRelease r) rfl I.i5 (fun _ => hnone)
+        (fun h => by simp only at h; rw [hnone] at h; cases h)
     | fail _ =>
       exact cInvN_after_write v cfg s t B I c _ hc hw (holds_ne_nil (holds_toRelease _ hhr))
         (cdisc_suffix (toRelease_suffix r) (cdisc_tail cd)) (adisc_suffix (toRelease_suffix r) (adisc_tail ad))
@@ -391,6 +396,11 @@ theorem cInvN_stepN (env : Env) (v : Variant) (cfg : Cfg) (s : State) (t : Tid) 
     have o := execW2_out env t f r s.sh c
     generalize execW2 env t f r s.sh c = p at o
     cases o with
+    | dead _ =>
+      exact cInvN_after_write v cfg s t B I c _ hc hw (holds_ne_nil (holds_toRelease _ hhr))
+        (cdisc_suffix (toRelease_suffix r) (cdisc_tail cd)) (adisc_suffix (toRelease_suffix r) (adisc_tail ad))
+        (atBoth_toRelease r) (atClear_toRelease r) rfl I.i5 (fun _ => hnone)
+        (fun h => by simp only at h; rw [hnone] at h; cases h)
     | fail _ =>
       exact cInvN_after_write v cfg s t B I c _ hc hw (holds_ne_nil (holds_toRelease _ hhr))
         (cdisc_suffix (toRelease_suffix r) (cdisc_tail cd)) (adisc_suffix (toRelease_suffix r) (adisc_tail ad))
